@@ -1,3 +1,365 @@
-import Holpy.Common.Sexp
-/- stub: replaced when the C03 model is built -/
-def main : IO Unit := Holpy.lineLoop (fun _ => "bad-op")
+import Holpy.Kernel.Wire
+import Holpy.Kernel.Oracle
+import Holpy.C03.Model
+/-
+Line protocol of the C03 model.  The term ops of the kernel driver (same code as
+`Holpy/C01/Driver.lean`, which cannot be imported because it defines `main`):
+  (aeq T1 T2) -> T|F            (gettype T) / (checktype T) -> (ok Ty) | (err KIND)
+  (substtype ((n Ty)*) T) (incr K T) (substbound ABS T) (betaconv T) (betanorm FUEL T)
+  (abstract T X) (occurs T X) (subst INST T)            -> (ok Term) | (err KIND) | T|F
+plus
+
+  (hashtree T) / (tyhashtree Ty)  -> HTREE := (s ATOM) | (n NAT) | (t HTREE*) | (h HTREE*)
+  (hasheq T1 T2)                  -> T|F        equality of the hash trees
+  (cmp T1 T2) / (cmpty Ty1 Ty2)   -> -1|0|1     fast_compare / fast_compare_typ (names are decoded first)
+  (size T)                        -> NAT
+  (lambda X BODY)                 -> (ok Term) | (err KIND)      Lambda(x, body)
+  (semeq T1 T2 SPEC BUDGET SEED MAXCOST)             -> (same N T|F) | (diff VALUATION) | (skip WHY)
+        closed terms: search a valuation in the model SPEC under which the denotations differ
+  (semeqty TYINST T0 T1 SPEC BUDGET SEED MAXCOST)    -> idem: T1 in (M, ρ) against T0 in (M.pull σ, ρ.pull σ)
+  (semsubst INST T0 T1 SPEC BUDGET SEED MAXCOST)     -> idem: T1 in (M, ρ) against substType σ T0 in (M, instVal ρ inst)
+  (history FIXED (EV*))           -> (ok R*) | (stuck K)
+        EV := (mk A NODE) | (wrap A SRC) | (copy (A*) SRC) | (free A) | (eq A B) | (term A)
+        NODE := (sv n Ty) | (v n Ty) | (c n Ty) | (ap A A) | (ab x Ty A) | (b i)
+        R := (eq FAST STRUCT) with FAST, STRUCT in T|F|none   for every (eq A B)
+           | (term Term) | (term none)                         for every (term A)
+-/
+open Holpy Holpy.Wire
+
+namespace Holpy.C03.Driver
+open Holpy.C03
+
+
+def sizesOf (l : List Sexp) : Option (List (String × Nat)) :=
+  l.mapM fun
+    | .list [.atom n, s] => do some (n, ← s.toNat?)
+    | _ => none
+
+def specOf : Sexp → Option Oracle.Spec
+  | .list [.list a, .list b, .list c, d] => do
+    some ⟨← sizesOf a, ← sizesOf b, ← sizesOf c, ← d.toNat?⟩
+  | _ => none
+
+def okTerm : Except TErr Term → String
+  | .ok t => toString (Sexp.list [.atom "ok", termTo t])
+  | .error e => toString (Sexp.list [.atom "err", .atom (terrTo e)])
+
+def okTy : Except TErr Ty → String
+  | .ok t => toString (Sexp.list [.atom "ok", tyTo t])
+  | .error e => toString (Sexp.list [.atom "err", .atom (terrTo e)])
+
+/-- the term operations of the shared kernel model -/
+def handleKernel (line : String) : String :=
+  match Sexp.parse line with
+  | some (.list [.atom "aeq", a, b]) =>
+    match termOf a, termOf b with
+    | some x, some y => toString (Sexp.ofBool (Term.aeq x y))
+    | _, _ => "bad-op"
+  | some (.list [.atom "gettype", a]) =>
+    match termOf a with
+    | some x => okTy (Term.getType [] x)
+    | none => "bad-op"
+  | some (.list [.atom "checktype", a]) =>
+    match termOf a with
+    | some x => okTy (Term.checkedGetType [] x)
+    | none => "bad-op"
+  | some (.list [.atom "substtype", .list σ, a]) =>
+    match tyInstOf σ, termOf a with
+    | some s, some x => okTerm (.ok (Term.substType s x))
+    | _, _ => "bad-op"
+  | some (.list [.atom "incr", k, a]) =>
+    match k.toNat?, termOf a with
+    | some n, some x => okTerm (.ok (Term.incrBoundvars n x))
+    | _, _ => "bad-op"
+  | some (.list [.atom "substbound", a, b]) =>
+    match termOf a, termOf b with
+    | some x, some y => okTerm (Term.substBound x y)
+    | _, _ => "bad-op"
+  | some (.list [.atom "betaconv", a]) =>
+    match termOf a with
+    | some x => okTerm (Term.betaConv x)
+    | none => "bad-op"
+  | some (.list [.atom "betanorm", k, a]) =>
+    match k.toNat?, termOf a with
+    | some n, some x => okTerm (Term.betaNorm n x)
+    | _, _ => "bad-op"
+  | some (.list [.atom "abstract", a, b]) =>
+    match termOf a, termOf b with
+    | some x, some y => okTerm (Term.abstractOver x y)
+    | _, _ => "bad-op"
+  | some (.list [.atom "occurs", a, b]) =>
+    match termOf a, termOf b with
+    | some x, some y => toString (Sexp.ofBool (Term.occursVar y x))
+    | _, _ => "bad-op"
+  | some (.list [.atom "subst", i, a]) =>
+    match argOf i, termOf a with
+    | some (.inst ins), some x =>
+      match Term.subst ins x with
+      | .ok (t, _) => okTerm (.ok t)
+      | .error e => okTerm (.error e)
+    | _, _ => "bad-op"
+  | _ => "bad-op"
+
+/-! names arrive percent-encoded (harness/common/sexp.py); the ordering needs the real strings -/
+def hexVal (c : Char) : Option Nat :=
+  if '0' ≤ c ∧ c ≤ '9' then some (c.toNat - '0'.toNat)
+  else if 'a' ≤ c ∧ c ≤ 'f' then some (c.toNat - 'a'.toNat + 10)
+  else none
+
+def decodeChars : Nat → List Char → List Char
+  | 0, cs => cs
+  | _, [] => []
+  | fuel + 1, '%' :: 'e' :: rest => decodeChars fuel rest
+  | fuel + 1, '%' :: rest =>
+    let digits := rest.takeWhile (· != '%')
+    let rest' := (rest.dropWhile (· != '%')).drop 1
+    let v := digits.foldl (fun acc d => acc * 16 + (hexVal d).getD 0) 0
+    Char.ofNat v :: decodeChars fuel rest'
+  | fuel + 1, c :: rest => c :: decodeChars fuel rest
+
+def decodeName (s : String) : String := String.ofList (decodeChars (s.length + 1) s.toList)
+
+mutual
+def decTy : Ty → Ty
+  | .stvar n => .stvar (decodeName n)
+  | .tvar n => .tvar (decodeName n)
+  | .con n args => .con (decodeName n) (decTyList args)
+def decTyList : List Ty → List Ty
+  | [] => []
+  | a :: as => decTy a :: decTyList as
+end
+
+def decTerm : Term → Term
+  | .svar n T => .svar (decodeName n) (decTy T)
+  | .var n T => .var (decodeName n) (decTy T)
+  | .const n T => .const (decodeName n) (decTy T)
+  | .comb f a => .comb (decTerm f) (decTerm a)
+  | .abs x T b => .abs (decodeName x) (decTy T) (decTerm b)
+  | .bound i => .bound i
+
+partial def htreeTo : HTree → Sexp
+  | .str s => .list [.atom "s", .atom s]
+  | .nat n => .list [.atom "n", Sexp.ofNat n]
+  | .tup l => .list (.atom "t" :: l.map htreeTo)
+  | .hashes l => .list (.atom "h" :: l.map htreeTo)
+
+/-! ### semantic comparison of two closed terms -/
+
+def typedAs (s : Term) (T : Ty) : Bool :=
+  match Term.checkedGetType [] s with
+  | .ok T' => T' == T
+  | .error _ => false
+
+/-- same definition as `Holpy.instVal` (Kernel/SemSubst.lean, a proof file) -/
+def instVal (M : Model) (ρ : Valuation) (inst : Term.Inst) : Valuation :=
+  fun k n T =>
+    if k = 0 then
+      match inst.svars.lookup n with
+      | some s => if typedAs s T then sem M ρ [] [] s else ρ k n T
+      | none => ρ k n T
+    else if k = 1 then
+      match inst.vars.lookup n with
+      | some s => if typedAs s T then sem M ρ [] [] s else ρ k n T
+      | none => ρ k n T
+    else ρ k n T
+
+/-- same definition as `Holpy.Valuation.pull` (Kernel/SemType.lean, a proof file) -/
+def pullVal (M : Model) (ρ : Valuation) (σ : Ty.TyInst) : Valuation :=
+  fun k n T => if k = 2 then constVal M ρ n (T.subst σ) else ρ k n (T.subst σ)
+
+/-- size of a type, `none` as soon as a component exceeds `cap` (`Model.size` itself would build
+astronomically large powers) -/
+partial def capSize (M : Model) (cap : Nat) : Ty → Option Nat
+  | .stvar n => some (M.stv n + 1)
+  | .tvar n => some (M.tv n + 1)
+  | .con n args => do
+    let ss ← args.mapM (capSize M cap)
+    match n, ss with
+    | "bool", [] => some 2
+    | "fun", [a, b] =>
+      if b ≤ 1 then some b
+      else if a > 40 then none
+      else if b ^ a > cap then none else some (b ^ a)
+    | _, _ => some (M.con n ss + 1)
+
+/-- all types written in a term (atoms and binders) -/
+def typesOf : Term → List Ty → List Ty
+  | .svar _ T, acc | .var _ T, acc | .const _ T, acc => T :: acc
+  | .comb f a, acc => typesOf a (typesOf f acc)
+  | .abs _ T b, acc => typesOf b (T :: acc)
+  | .bound _, acc => acc
+
+/-- rough number of `sem` node visits for one valuation: binder domains multiply along a path;
+`equals` at carrier n costs n², `all` at carrier n costs 2ⁿ -/
+def evalCost (M : Model) : Term → Nat
+  | .const n T =>
+    match logicalKind n T with
+    | some (0, a) => M.size a * M.size a
+    | some (2, a) => 2 ^ (min (M.size a) 40)
+    | _ => 1
+  | .comb f a => evalCost M f + evalCost M a + 1
+  | .abs _ T b => M.size T * (evalCost M b + 1)
+  | _ => 1
+
+def MAXEVAL : Nat := 60000
+
+inductive SVerdict where
+  | same (tried : Nat) (exhaustive : Bool)
+  | diff (asg : List (Oracle.Atom × Nat))
+  | skip (why : String)
+
+/-- `differs ρ` decides whether the two denotations differ under `ρ`; `terms` are the terms whose
+atoms are valued (all of them evaluated in `M`) -/
+def searchDiff (M : Model) (terms : List Term) (differs : Valuation → Bool)
+    (budget seed maxCost : Nat) : SVerdict :=
+  let tys := terms.foldl (fun acc t => typesOf t acc) []
+  if !(tys.all (fun T => (capSize M maxCost T).isSome)) then .skip "type_size" else
+  let atoms := terms.foldl (fun acc t => Oracle.atomsAcc t acc) []
+  let sized := atoms.map (fun a => (a, M.size a.2.2))
+  let cost := terms.foldl (fun c t => Oracle.costAcc M t c) 0
+  let ec := terms.foldl (fun c t => c + evalCost M t) 0
+  if ec > MAXEVAL then .skip s!"eval_cost_{ec}" else
+  let budget := max 1 (min budget (MAXEVAL / ec))
+  if cost > maxCost then .skip s!"cost_{cost}"
+  else if sized.any (fun p => p.2 > maxCost) then .skip "atom_size"
+  else
+    let total := sized.foldl (fun acc p => acc * p.2) 1
+    if total ≤ budget then
+      let rec go (i : Nat) (fuel : Nat) : SVerdict :=
+        match fuel with
+        | 0 => .same total true
+        | fuel + 1 =>
+          if i ≥ total then .same total true
+          else
+            let asg := Oracle.decode sized i
+            if differs (Oracle.valuationOf asg) then .diff asg else go (i + 1) fuel
+      go 0 (total + 1)
+    else
+      let rec gos (k : Nat) (st : Nat) : SVerdict :=
+        match k with
+        | 0 => .same budget false
+        | k + 1 =>
+          let (asg, st') := Oracle.sample sized st
+          if differs (Oracle.valuationOf asg) then .diff asg else gos k st'
+      gos budget (seed + 1)
+
+def verdictTo : SVerdict → String
+  | .same n ex => toString (Sexp.list [.atom "same", Sexp.ofNat n, Sexp.ofBool ex])
+  | .diff asg => toString (Sexp.list [.atom "diff", .list (asg.map fun (a, v) =>
+      .list [Sexp.ofNat a.1, .atom a.2.1, tyTo a.2.2, Sexp.ofNat v])])
+  | .skip w => toString (Sexp.list [.atom "skip", .atom w])
+
+/-! ### heap histories -/
+
+def nodeOf : Sexp → Option Node
+  | .list [.atom "sv", .atom n, T] => do some (.svar n (← tyOf T))
+  | .list [.atom "v", .atom n, T] => do some (.var n (← tyOf T))
+  | .list [.atom "c", .atom n, T] => do some (.const n (← tyOf T))
+  | .list [.atom "ap", f, a] => do some (.comb (← f.toNat?) (← a.toNat?))
+  | .list [.atom "ab", .atom x, T, b] => do some (.abs x (← tyOf T) (← b.toNat?))
+  | .list [.atom "b", i] => do some (.bound (← i.toNat?))
+  | _ => none
+
+inductive Ev where
+  | op (o : Op)
+  | eq (a b : Addr)
+  | term (a : Addr)
+
+def evOf : Sexp → Option Ev
+  | .list [.atom "mk", a, n] => do some (.op (.alloc (← a.toNat?) (← nodeOf n)))
+  | .list [.atom "wrap", a, s] => do some (.op (.wrap (← a.toNat?) (← s.toNat?)))
+  | .list [.atom "copy", .list as, s] => do some (.op (.copy (← as.mapM Sexp.toNat?) (← s.toNat?)))
+  | .list [.atom "free", a] => do some (.op (.free (← a.toNat?)))
+  | .list [.atom "eq", a, b] => do some (.eq (← a.toNat?) (← b.toNat?))
+  | .list [.atom "term", a] => do some (.term (← a.toNat?))
+  | _ => none
+
+def optBool : Option Bool → Sexp
+  | some b => Sexp.ofBool b
+  | none => .atom "none"
+
+def FUEL : Nat := 100000
+
+def runEvents (fixed : Bool) : Heap → List Ev → Nat → List Sexp → Except Nat (List Sexp)
+  | _, [], _, acc => .ok acc.reverse
+  | h, .op o :: rest, k, acc =>
+    match step fixed h o with
+    | some h' => runEvents fixed h' rest (k + 1) acc
+    | none => .error k
+  | h, .eq a b :: rest, k, acc =>
+    let fast := eqFast h FUEL a b
+    let struct := match readTerm h FUEL a, readTerm h FUEL b with
+      | some ta, some tb => some (Term.aeq ta tb)
+      | _, _ => none
+    runEvents fixed h rest (k + 1) (.list [.atom "eq", optBool fast, optBool struct] :: acc)
+  | h, .term a :: rest, k, acc =>
+    let r := match readTerm h FUEL a with
+      | some t => termTo t
+      | none => .atom "none"
+    runEvents fixed h rest (k + 1) (.list [.atom "term", r] :: acc)
+
+def handle (line : String) : String :=
+  match Sexp.parse line with
+  | some (.list [.atom "hashtree", a]) =>
+    match termOf a with
+    | some x => toString (htreeTo (hashTree x))
+    | none => "bad-op"
+  | some (.list [.atom "tyhashtree", a]) =>
+    match tyOf a with
+    | some x => toString (htreeTo (tyHash x))
+    | none => "bad-op"
+  | some (.list [.atom "hasheq", a, b]) =>
+    match termOf a, termOf b with
+    | some x, some y => toString (Sexp.ofBool (toString (htreeTo (hashTree x)) == toString (htreeTo (hashTree y))))
+    | _, _ => "bad-op"
+  | some (.list [.atom "cmp", a, b]) =>
+    match termOf a, termOf b with
+    | some x, some y => toString (ordToInt (fastCompare (decTerm x) (decTerm y)))
+    | _, _ => "bad-op"
+  | some (.list [.atom "cmpty", a, b]) =>
+    match tyOf a, tyOf b with
+    | some x, some y => toString (ordToInt (fastCompareTyp (decTy x) (decTy y)))
+    | _, _ => "bad-op"
+  | some (.list [.atom "size", a]) =>
+    match termOf a with
+    | some x => toString (size x)
+    | none => "bad-op"
+  | some (.list [.atom "lambda", x, b]) =>
+    match termOf x, termOf b with
+    | some vx, some body => okTerm (Term.mkLambda vx body)
+    | _, _ => "bad-op"
+  | some (.list [.atom "semeq", a, b, spec, budget, seed, maxCost]) =>
+    match termOf a, termOf b, specOf spec, budget.toNat?, seed.toNat?, maxCost.toNat? with
+    | some x, some y, some s, some bu, some sd, some mc =>
+      let M := s.toModel
+      verdictTo (searchDiff M [x, y] (fun ρ => sem M ρ [] [] x != sem M ρ [] [] y) bu sd mc)
+    | _, _, _, _, _, _ => "bad-op"
+  | some (.list [.atom "semeqty", .list σ, a, b, spec, budget, seed, maxCost]) =>
+    match tyInstOf σ, termOf a, termOf b, specOf spec, budget.toNat?, seed.toNat?, maxCost.toNat? with
+    | some ti, some x, some y, some s, some bu, some sd, some mc =>
+      let M := s.toModel
+      -- atoms of the instantiated terms; the original is evaluated in the pulled model
+      verdictTo (searchDiff M [Term.substType ti x, y]
+        (fun ρ => sem (M.pull ti) (pullVal M ρ ti) [] [] x != sem M ρ [] [] y) bu sd mc)
+    | _, _, _, _, _, _, _ => "bad-op"
+  | some (.list [.atom "semsubst", i, a, b, spec, budget, seed, maxCost]) =>
+    match argOf i, termOf a, termOf b, specOf spec, budget.toNat?, seed.toNat?, maxCost.toNat? with
+    | some (.inst ins), some x, some y, some s, some bu, some sd, some mc =>
+      let M := s.toModel
+      let x' := Term.substType ins.tyinst x
+      let others := ins.svars.map (·.2) ++ ins.vars.map (·.2)
+      verdictTo (searchDiff M (x' :: y :: others)
+        (fun ρ => sem M (instVal M ρ ins) [] [] x' != sem M ρ [] [] y) bu sd mc)
+    | _, _, _, _, _, _, _ => "bad-op"
+  | some (.list [.atom "history", fx, .list evs]) =>
+    match fx.toBool?, evs.mapM evOf with
+    | some fixed, some es =>
+      match runEvents fixed Heap.empty es 0 [] with
+      | .ok rs => toString (Sexp.list (.atom "ok" :: rs))
+      | .error k => toString (Sexp.list [.atom "stuck", Sexp.ofNat k])
+    | _, _ => "bad-op"
+  | _ => handleKernel line
+
+end Holpy.C03.Driver
+
+def main : IO Unit := Holpy.lineLoop Holpy.C03.Driver.handle
